@@ -63,7 +63,7 @@ LEVEL_TEXT = ('Machine-checked proof (Coq 8.16.1) over the executable session mo
               'points to an existing object of the target entity; a live object with b.ref = a is a member of a.coll; every member of a.coll is live and refers back), '
               'provided no dirty site was reached. The proof covers reference assignment from both sides (Attribute.__set__, SetInstance.add/remove, Set.__set__), '
               'creation with reference and collection arguments, Entity.set, cascade and unlinking delete, and loading rows (db_set / db_reverse_add) incl. seeds and '
-              'partially loaded collections. One defect site is refuted by a witness (failed creation leaves a one-sided link); two further known findings lie in steps the '
+              'partially loaded collections. One defect site has a witness (failed creation leaves a one-sided link) stated under the source-derived flag failed_create_unregisters: repaired in /repo by 751c8a4, vacuous on HEAD, recorded as fixed, as are the one-sided links after a refused delete / failing Entity.set with a collection argument (e3298c1); two further known findings lie in steps the '
               'model declines (Entity.set mixing reference and collection arguments; creation referring to a deleted object). One-to-one, many-to-many and symmetric '
               'relationships (Stage 2) are outside the theorems; they are covered on the implementation side only: many-to-many and one-to-one by the oracles of the history search, composite primary keys containing '
               'relationships, self references, symmetric relationships and subclasses by a fixed relationship census (tools/c12_census.py). Tie: as for C11; in addition the many-to-many link-set model coq/Model/SessionM2M.v (Stage 2 piece: both SetData views with added/removed, loads, add/remove/assignment, flush) is compared with real Pony + SQLite on generated histories on every run - every read of either side must agree -, which is a differential check of the both-ends behaviour for many-to-many, not a proof (no invariant is proved for that model).')
